@@ -409,14 +409,12 @@ def gen_cg(repo):
     # 2. shape glue, fingerprints (b is rhs as a block, x is x0 (or zeros) as a block)
     glue = ['tstart = time.perf_counter()',
             'if rhs.ndim == 1:\n    b = rhs.reshape((rhs.size, 1))\nelse:\n    b = rhs',
-            'x = np.zeros_like(rhs, dtype=np.result_type(rhs.dtype, A.dtype)) if x0 is None else x0.copy()',
+            # the start vector: zeros of the result type, or the given guess converted to (at least) the result type
+            'dtype = np.result_type(rhs.dtype, A.dtype)',
+            'x = np.zeros_like(rhs, dtype=dtype) if x0 is None else x0.astype(np.result_type(dtype, x0.dtype))',
             'if x.ndim == 1:\n    x = x.reshape((x.size, 1))']
-    # the start vector: zeros of the result type, or the given guess (copied / converted to the result type)
-    alt = {glue[2]: [glue[2],
-                     'x = np.zeros_like(rhs, dtype=np.result_type(rhs.dtype, A.dtype)) if x0 is None else '
-                     'x0.astype(np.result_type(rhs.dtype, A.dtype, x0.dtype))']}
     for g in glue:
-        if ast.unparse(body[k]) not in [norm(a) for a in alt.get(g, [g])]:
+        if ast.unparse(body[k]) != norm(g):
             raise Unsupported('T-alg: CG.solve: expected `' + g + '` got `' + ast.unparse(body[k])[:100] + '`')
         k += 1
     em = CGEmitter({}, {}, env={'A': 'A', 'b': 'b', 'x': 'x', 'p': 'p'})
